@@ -15,6 +15,7 @@ Fixpoint nn_iter (n : nat) (v : Z) : Z :=
 (* the state of core (x, y, p) *)
 Definition core_at (m : machine) (c : core) : option core_st :=
   let '(x, y, p) := c in
+  if p <? 0 then None else
   match cassoc (x, y) (m_chips m) with
   | Some ch => nth_error (ch_cores ch) (Z.to_nat p)
   | None => None
@@ -38,19 +39,22 @@ Definition core_wf (c : core_st) : Prop := 0 <= cs_state c < 256 /\ 0 <= cs_app 
    overlap the two sv words, the buffer holds between one and 256 words *)
 Definition machine_wf (m : machine) : Prop :=
   NoDup (map fst (m_chips m))
-  /\ (forall xy ch, In (xy, ch) (m_chips m) -> Forall core_wf (ch_cores ch))
+  /\ (forall c s, core_at m c = Some s -> core_wf s)
   /\ (m_vcpu m + VCPU_SIZE * N_CORES <= SV_BASE \/ SV_BASE + 256 <= m_vcpu m)
   /\ 0 <= m_vcpu m < 2 ^ 32 /\ 0 <= m_base m < 2 ^ 32
   /\ 4 <= m_buffer m <= 1024 /\ m_buffer m mod 4 = 0.
 
-(* the binaries the map names exist, are whole words and need at most 255 blocks *)
+(* the binaries are whole words and need at most 255 blocks *)
 Definition binary_ok (buffer : Z) (data : list Z) : Prop :=
   zlen data mod 4 = 0 /\ ff_n_blocks (zlen data) buffer <= 255.
 
-Definition map_wf (bins : list (list Z)) (buffer : Z) (am : appmap) : Prop :=
-  (forall b ts, In (b, ts) am ->
-     0 <= b /\ exists data, nth_error bins (Z.to_nat b) = Some data /\ binary_ok buffer data)
-  /\ NoDup (map snd (named am)).          (* every core is named for at most one binary *)
+Definition bins_ok (buffer : Z) (bins : list (list Z)) : Prop := Forall (binary_ok buffer) bins.
+
+(* every core is named for at most one binary, is a core of the 256 x 256 x 18 space and does not sit on
+   the broadcast address *)
+Definition map_wf (am : appmap) : Prop :=
+  NoDup (map snd (named am))
+  /\ (forall b x y p, In (b, (x, y, p)) (named am) -> in_space (x, y, p) /\ ~ (x = 255 /\ y = 255)).
 
 (* the controller's cache of the buffer size, if filled, is the machine's; its fill id is in range *)
 Definition ctrl_wf (c : ctrl) (m : machine) : Prop :=
@@ -85,17 +89,20 @@ Fixpoint blocks_ok (buffer pid block addr : Z) (ds : list pkt) : Prop :=
       /\ blocks_ok buffer pid (block + 1) (addr + zlen (q_data q)) r
   end.
 
-(* the packets of one fill of [data]: start, core selections in increasing order, (the read of the
-   load address,) data blocks, end; announced count = blocks sent; the blocks reassemble to the binary *)
+(* the parts of one fill of [data]: start, core selections in increasing order, (the read of the load
+   address,) data blocks, end; announced count = blocks sent; the blocks reassemble to the binary *)
+Definition ff_parts (buffer base : Z) (data : list Z) (ffs : pkt) (sels : list pkt) (rd : pkt)
+           (ds : list pkt) (ffe : pkt) : Prop :=
+  is_nn NN_FFS ffs /\ Forall (is_nn NN_FFCS) sels /\ is_read rd /\ is_nn NN_FFE ffe
+  /\ field (q_a1 ffs) 8 8 = zlen ds
+  /\ blocks_ok buffer (field (q_a1 ffs) 16 8) 0 base ds
+  /\ concat (map q_data ds) = data
+  /\ field (q_a1 ffe) 0 8 = field (q_a1 ffs) 16 8
+  /\ StronglySorted (fun a b => sel_key a < sel_key b) sels.
+
 Definition ff_wellformed (buffer base : Z) (data : list Z) (ps : list pkt) : Prop :=
   exists ffs sels rd ds ffe,
-    ps = [ffs] ++ sels ++ [rd] ++ ds ++ [ffe]
-    /\ is_nn NN_FFS ffs /\ Forall (is_nn NN_FFCS) sels /\ is_read rd /\ is_nn NN_FFE ffe
-    /\ field (q_a1 ffs) 8 8 = zlen ds
-    /\ blocks_ok buffer (field (q_a1 ffs) 16 8) 0 base ds
-    /\ concat (map q_data ds) = data
-    /\ field (q_a1 ffe) 0 8 = field (q_a1 ffs) 16 8
-    /\ StronglySorted (fun a b => sel_key a < sel_key b) sels.
+    ps = [ffs] ++ sels ++ [rd] ++ ds ++ [ffe] /\ ff_parts buffer base data ffs sels rd ds ffe.
 
 (* the cores a list of core select packets selects *)
 Definition sels_select (sels : list pkt) (c : core) : bool :=
